@@ -124,7 +124,9 @@ func runOvfSub(c *mon.Case, sp spec) {
 		subject.offered = 0
 		wantAll := append(want, barrier)
 		rest, ok := g.recvUntil(subject, func(got [][]byte) bool { return refEqual(got[len(got)-1], barrier) },
-			func(got [][]byte, dump string) { judgeSub(append(append([][]byte{}, first...), got...), false, dump, wantAll) })
+			func(got [][]byte, dump string) {
+				judgeSub(append(append([][]byte{}, first...), got...), false, dump, wantAll)
+			})
 		if !ok {
 			return
 		}
